@@ -97,6 +97,20 @@ def gen_cases(rng, tier, scale):
             t = pre_ + '{{!--' + body + '--}}' + post_
             e = (pre_ + post_).replace('{{v}}', 'V')
             cases.append(rcase(f'dc{j3}_{len(pre_)}', t, {'v': 'V', 'a': True, 'x': 'X'}, entry=4, kind='whole', s='}}', exp=e, tags=['dashed-comment-braces']))
+    # whitespace characters other than space and tab (NBSP, EM SPACE, IDEOGRAPHIC SPACE, LINE SEPARATOR, NEL, VT, FF) are
+    # ordinary text: a tag sharing its line with one of them is not alone on the line, and they are never trimmed by the
+    # standalone rule
+    for j4, wch in enumerate(['\u00a0', '\u2003', '\u3000', '\u2028', '\u0085', '\x0b', '\x0c', '\u1680']):
+        for shape in (0, 1, 2, 3):
+            if shape == 0:
+                items = [_x(wch), _t('#if t', True), _x('\nx\n'), _t('/if', True), _x('\n')]
+            elif shape == 1:
+                items = [_x('a\n'), _t('!c', True), _x(wch + '\nb')]
+            elif shape == 2:
+                items = [_x('a\n' + wch), _t('> p', True, False, False, 'P', partial=True), _x('\nb')]
+            else:
+                items = [_t('raw', True, quad=True), _x('\n' + wch + 'r' + wch + '\n'), _t('/raw', True, quad=True), _x(wch)]
+            cases.append(rcase(f'uw{j4}_{shape}', _src(items), {'t': True}, partials={'p': 'P'}, entry=0, kind='whole', s=wch, exp=_exp(items), tags=['unicode-whitespace']))
     # a lone CR (not followed by LF) is ordinary text: it is never removed, also not directly after a tag that
     # stands at the start of a line
     for j2, (tpl, exp) in enumerate([('{{! note }}\rbody', '\rbody'), ('{{#if t}}\rx{{/if}}', '\rx'), ('{{{{raw}}}}\rz{{{{/raw}}}}', '\rz'),
